@@ -130,16 +130,24 @@ def json_eq(a, b):
     return a == b
 
 
-def call_value_helper(h, vals):
+def call_value_helper(h, vals, strict=False):
     """value-returning built-ins usable in subexpressions"""
+    if strict and h in ("eq", "ne", "not", "len", "gt", "gte", "lt", "lte") and any(v is MISSING for v in vals):
+        # helpers defined with handlebars_helper! reject a missing parameter in strict mode
+        raise SpecError(["ParamNotFoundForName"])
     vs = [None if v is MISSING else v for v in vals]
     if h == "lookup":
         c, k = vs[0], vs[1]
+        r = MISSING
         if isinstance(c, dict) and isinstance(k, str):
-            return c.get(k)
-        if isinstance(c, list) and isinstance(k, int) and not isinstance(k, bool) and k >= 0:
-            return c[k] if k < len(c) else None
-        return None
+            r = c[k] if k in c else MISSING
+        elif isinstance(c, list) and isinstance(k, int) and not isinstance(k, bool) and k >= 0:
+            r = c[k] if k < len(c) else MISSING
+        if r is MISSING:
+            if strict:
+                raise SpecError(["MissingVariable"])
+            return None
+        return r
     if h == "eq":
         return json_eq(vs[0], vs[1])
     if h == "ne":
@@ -165,7 +173,7 @@ def eval_arg(arg, scopes, env):
     if a == "lit":
         return arg["v"]
     if a == "sub":
-        return call_value_helper(arg["h"], [eval_arg(x, scopes, env) for x in arg["args"]])
+        return call_value_helper(arg["h"], [eval_arg(x, scopes, env) for x in arg["args"]], env.strict)
     if a == "local":
         k = arg["ups"]
         if k >= len(scopes):
@@ -218,7 +226,7 @@ def render_node(n, scopes, env, pbstack):
         s = render_value(v)
         return s if n.get("html") else env.escape(s)
     if t == "hexpr":
-        v = call_value_helper(n["h"], [eval_arg(x, scopes, env) for x in n["args"]])
+        v = call_value_helper(n["h"], [eval_arg(x, scopes, env) for x in n["args"]], env.strict)
         s = render_value(v)
         return s if n.get("html") else env.escape(s)
     if t == "if":
